@@ -75,6 +75,12 @@ def idState (v : J) : IdState :=
   | some (.str s) => if Iri.hasScheme s then .iri s else .unusable
   | some _ => .unusable
 
+/-- the id property is set and holds an IRI -/
+def idUsable (v : J) : Bool :=
+  match idState v with
+  | .iri _ => true
+  | _ => false
+
 /-- `GetJSONLDId().Get()` for a non-nil property: the IRI or nil -/
 def idGet (v : J) : Iri :=
   match idState v with
